@@ -104,6 +104,12 @@ func (p *C20PtrM) GetA() string { return p.A }
 func (p *C20PtrM) Ptr() string  { return "ptr" }
 func (p C20PtrM) Val() string   { return "val" }
 
+// every method has a pointer receiver: the value type itself has an empty method set
+type C20PtrOnly struct{ A string }
+
+func (p *C20PtrOnly) GetA() string { return p.A }
+func (p *C20PtrOnly) Ptr() string  { return "ptronly" }
+
 // two different named types with the same reflect Name()
 func c20SameA() reflect.Type {
 	type Same struct {
@@ -126,6 +132,7 @@ var c20Catalogue = map[string]reflect.Type{
 	"C20OM": reflect.TypeOf(C20OM{}), "c20inner": reflect.TypeOf(c20inner{}), "C20UE": reflect.TypeOf(C20UE{}),
 	"C20UEP": reflect.TypeOf(C20UEP{}), "C20Shadow": reflect.TypeOf(C20Shadow{}), "C20Amb": reflect.TypeOf(C20Amb{}),
 	"C20Deep": reflect.TypeOf(C20Deep{}), "C20SameA": c20SameA(), "C20SameB": c20SameB(), "C20PtrM": reflect.TypeOf(C20PtrM{}),
+	"C20PtrOnly": reflect.TypeOf(C20PtrOnly{}),
 }
 
 // ---------------------------------------------------------------- building types and values
